@@ -1,6 +1,7 @@
 package main
 
 import (
+	"context"
 	"bytes"
 	"encoding/json"
 	"fmt"
@@ -63,6 +64,33 @@ func runDryPredictsReal(c Case) []Diff {
 	var d []Diff
 	if nameErr(dcls) != nameErr(mcls) {
 		d = append(d, Diff{What: "dry run and real run disagree about the names", Real: "dry=" + classify(derr) + " real=" + classify(merr), Model: "same verdict"})
+	}
+	// the same dry run with the massive option gives the same verdict about the names
+	var mrep lockedBuf
+	mderr := gtree.OutputFromMarkdown(&mrep, bytes.NewReader(c.doc()), gtree.WithDryRun(), gtree.WithFileExtensions(c.Exts), gtree.WithMassive(context.Background()))
+	if nameErr(errClass(classify(mderr))) != nameErr(dcls) {
+		d = append(d, Diff{What: "dry run with the massive option disagrees with the simple dry run about the names", Real: "massive dry=" + classify(mderr), Model: "simple dry=" + classify(derr)})
+	}
+	// the CLI route: `gtree mkdir --dry-run` into a target that does not exist creates nothing, prints the same report
+	if c.Note == "cli" {
+		cj := newJail()
+		defer os.RemoveAll(cj)
+		args := []string{"mkdir", "--dry-run", "--target-dir", filepath.Join(cj, "missing", "t")}
+		for _, e := range c.Exts {
+			args = append(args, "-e", e)
+		}
+		before := snapshot(cj)
+		run := execCli(cliBinary(), cj, args, c.doc(), "pipe")
+		after := snapshot(cj)
+		if strings.Join(before, ",") != strings.Join(after, ",") {
+			d = append(d, Diff{What: "gtree mkdir --dry-run changed the file system", Real: strings.Join(after, ","), Model: strings.Join(before, ",")})
+		}
+		if (run.code == 0) != (derr == nil) || run.crashed {
+			d = append(d, Diff{What: "gtree mkdir --dry-run: exit status disagrees with the library's dry run", Real: fmt.Sprintf("exit %d stderr=%q", run.code, run.stderr), Model: "library: " + classify(derr)})
+		}
+		if derr == nil && run.code == 0 && !bytes.Equal(run.stdout, rep.Bytes()) {
+			d = append(d, Diff{What: "gtree mkdir --dry-run prints something else than the library's dry-run report", Real: hx(run.stdout), Model: hx(rep.Bytes())})
+		}
 	}
 	if derr != nil || merr != nil {
 		if derr == nil && !nameErr(mcls) {
